@@ -185,39 +185,65 @@ func TestC19(t *testing.T) {
 			now += step()
 			sched = append(sched, schedEv{now, []string{"", "success", "fail"}[final]})
 		}
-		c.Desc = fmt.Sprintf("retry rc=%d rd=%v events=%v", rc, rd, sched)
-		// expected log by reference simulation
+		// Callback behaviour by invocation number (1-based, over the whole transaction): a set bit in postMask
+		// makes that invocation return ErrRetryPostponed (documented: "not counted", the timer just restarts);
+		// cbErrAt > 0 makes that invocation return a custom error (the transaction fails with it at once).
+		postMask, cbErrAt := uint(0), 0
+		switch (c.I / 288) % 4 {
+		case 1:
+			postMask = uint(rng.Intn(256))
+		case 2:
+			postMask = uint(1)<<uint(rng.Intn(4)+1) - 1 // the first 1..4 invocations are postponed (client asleep, then awake)
+		case 3:
+			postMask = uint(rng.Intn(16))
+			cbErrAt = 1 + rng.Intn(6)
+		}
+		c.Desc = fmt.Sprintf("retry rc=%d rd=%v events=%v postponeMask=%b cbErrAt=%d", rc, rd, sched, postMask, cbErrAt)
+		// expected log by reference simulation, tick by tick
 		var want []string
-		reset, data := time.Duration(0), 0
-		emitUntil := func(limit time.Duration, bounded bool) {
-			for j := 1; j <= int(rc); j++ {
-				at := reset + time.Duration(j)*rd
-				if bounded && at >= limit {
+		{
+			timerAt, counted, inv, data, finished := rd, 0, 0, 0, false
+			tick := func() { // one timer expiry at timerAt
+				if counted+1 > int(rc) {
+					want = append(want, fmt.Sprintf("done:%v@%v", transactions.ErrNoMoreRetries, timerAt))
+					finished = true
 					return
 				}
-				want = append(want, fmt.Sprintf("cb:%d@%v", data, at))
+				inv++
+				want = append(want, fmt.Sprintf("cb:%d@%v", data, timerAt))
+				switch {
+				case inv <= 8 && postMask&(1<<uint(inv-1)) != 0:
+				case inv == cbErrAt:
+					want = append(want, fmt.Sprintf("done:%v@%v", errCustom, timerAt))
+					finished = true
+					return
+				default:
+					counted++
+				}
+				timerAt += rd
 			}
-			if !bounded {
-				want = append(want, fmt.Sprintf("done:%v@%v", transactions.ErrNoMoreRetries, reset+time.Duration(rc+1)*rd))
+			for _, e := range sched {
+				for !finished && timerAt < e.at {
+					tick()
+				}
+				if finished {
+					break
+				}
+				switch e.kind {
+				case "proceed":
+					counted, timerAt = 0, e.at+rd
+					data++
+				case "success":
+					want = append(want, fmt.Sprintf("done:%v@%v", nil, e.at))
+					finished = true
+				case "fail":
+					want = append(want, fmt.Sprintf("done:%v@%v", errCustom, e.at))
+					finished = true
+				}
 			}
-		}
-		finished := false
-		for _, e := range sched {
-			emitUntil(e.at, true)
-			switch e.kind {
-			case "proceed":
-				reset = e.at
-				data++
-			case "success":
-				want = append(want, fmt.Sprintf("done:%v@%v", nil, e.at))
-				finished = true
-			case "fail":
-				want = append(want, fmt.Sprintf("done:%v@%v", errCustom, e.at))
-				finished = true
+			for !finished {
+				tick()
 			}
-		}
-		if !finished {
-			emitUntil(0, false)
 		}
 		var log txLog
 		synctest.Test(t, func(t *testing.T) {
@@ -225,8 +251,16 @@ func TestC19(t *testing.T) {
 			ctx, cancel := context.WithCancel(context.Background())
 			defer cancel()
 			var tx *transactions.RetryTransaction
+			inv := 0
 			tx = transactions.NewRetryTransaction(ctx, rd, rc, func(d interface{}) error {
 				log.add("cb:%v", d)
+				inv++
+				if inv <= 8 && postMask&(1<<uint(inv-1)) != 0 {
+					return transactions.ErrRetryPostponed
+				}
+				if inv == cbErrAt {
+					return errCustom
+				}
 				return nil
 			}, func() { log.add("finally") })
 			go func() { <-tx.Done(); log.add("done:%v", tx.Err()) }()
@@ -246,7 +280,7 @@ func TestC19(t *testing.T) {
 					tx.Fail(errCustom)
 				}
 			}
-			time.Sleep(time.Duration(rc+3) * rd)
+			time.Sleep(time.Duration(rc+12) * rd)
 			synctest.Wait()
 		})
 		var got []string
@@ -257,6 +291,9 @@ func TestC19(t *testing.T) {
 		}
 		if fmt.Sprint(got) != fmt.Sprint(want) {
 			kind := "budget"
+			if postMask != 0 {
+				kind = "budget-with-postponed"
+			}
 			if len(got) > len(want) {
 				kind = "extra-events"
 			} else if len(got) < len(want) {
@@ -264,10 +301,10 @@ func TestC19(t *testing.T) {
 			}
 			c.Violation(fmt.Sprintf("retry|%s|final=%d", kind, final), fmt.Sprintf("retry transaction rc=%d rd=%v schedule %v: observed %v, expected %v", rc, rd, sched, got, want), map[string]interface{}{"observed": got, "expected": want, "full_log": log.snapshot()})
 		}
-		c.Key("retry|%d|%v|%d|%d|%d", rc, rd, nprog, final, len(want))
+		c.Key("retry|%d|%v|%d|%d|%d|%d|%d", rc, rd, nprog, final, len(want), postMask, cbErrAt)
 		if c.I == 200 {
 			r.Sample(map[string]interface{}{"retry_count": rc, "retry_delay": rd.String(), "schedule": fmt.Sprint(sched), "observed": got})
 		}
 	})
-	r.Finish("one schedule per case, run on the real RetryTransaction / TimedTransaction in a synctest bubble (virtual time): RetryCount 0..5 x RetryDelay {1ms,250ms,1s,10s} x 0..3 Proceed events x final {none,Success,Fail}, each event placed k whole delays + {10,25,50,75,90}% of a delay after the previous reset (never on a tick); timed: timeout {1ms,1s,5s} x {no completion, Success, Fail at 1..99% of the timeout}; slow-callback cases: the k-th retry callback takes 10-70% of a delay and Proceed arrives while it runs (the full budget must follow the progress). Oracle: the exact list of (callback data, virtual time) and (Done, Err, virtual time) events equals a reference simulation. Distinct by (rc, rd, #progress, final, #expected events).", nil)
+	r.Finish("one schedule per case, run on the real RetryTransaction / TimedTransaction in a synctest bubble (virtual time): RetryCount 0..5 x RetryDelay {1ms,250ms,1s,10s} x 0..3 Proceed events x final {none,Success,Fail}, each event placed k whole delays + {10,25,50,75,90}% of a delay after the previous reset (never on a tick), and the retry callback either always succeeds, returns ErrRetryPostponed on a random subset / prefix of its first 8 invocations (a postponed retry is not counted: the budget of RetryCount real retries must still follow), or returns a custom error at one invocation (the transaction fails with it at that tick); timed: timeout {1ms,1s,5s} x {no completion, Success, Fail at 1..99% of the timeout}; slow-callback cases: the k-th retry callback takes 10-70% of a delay and Proceed arrives while it runs (the full budget must follow the progress). Oracle: the exact list of (callback data, virtual time) and (Done, Err, virtual time) events equals a reference simulation. Distinct by (rc, rd, #progress, final, #expected events).", nil)
 }
